@@ -286,6 +286,15 @@ def shared_constraint_toys():
     out.append(('equal_atoms_second_alone', cl.Problem(cl.MAX, ze[0], [e2]).solve(solver='ECOS', verbose=False), math.log(5.0)))
     out.append(('equal_atoms_together', cl.Problem(cl.MAX, ze[0], [e2, e1]).solve(solver='ECOS', verbose=False), math.log(2.0)))
     out.append(('equal_atoms_together_other_order', cl.Problem(cl.MAX, ze[0], [e1, e2]).solve(solver='ECOS', verbose=False), math.log(2.0)))
+    # one nonlinear EXPRESSION object used to state constraints of successive Problems (the constraints are different objects, the Expression is the
+    # user's): min r s.t. |x - a| - r <= slack, x0 + x1 = 1 has optimum 1.5 - slack
+    from sageopt.coniclifts.operators.abs import abs as cl_abs_
+    xg = cl.Variable(shape=(2,), name='gap_x')
+    rg = cl.Variable(shape=(), name='gap_r')
+    gap = cl_abs_(xg - np.array([2.0, 2.0])) - rg
+    for k_, slack in enumerate((0.0, 0.5, 0.0, 0.25)):
+        got = cl.Problem(cl.MIN, rg, [gap <= slack, xg[0] + xg[1] == 1]).solve(solver='ECOS', verbose=False)
+        out.append(('shared_expression_%d (slack %g)' % (k_, slack), got, 1.5 - slack))
     # sum of exponentials with a repeated argument: exp(x0) + exp(x0) + 2 exp(x1) <= 1, max x0 + x1 = log(1/4) + log(1/4)
     y = cl.Variable(shape=(2,), name='y')
     alpha = np.array([[1.0, 0.0], [1.0, 0.0], [0.0, 1.0]])
